@@ -19,19 +19,20 @@ def asserts(ids):
     return '\n'.join('(assert n%d)' % c for c in ids)
 
 
-def run(tier, seed):
-    ck = Check('C04', tier, seed, level='model_checking')
+def run(tier, seed, ck=None):
+    own = ck is None
+    ck = ck or Check('C04', tier, seed, level='model_checking')
     jobs = [{'id': 'enc%d' % k, 'harness': 'vh_el_encode', 'args': [k], 'summaries': FIELD_SUMM, 'concretize': {'slice': [1, 33, 65]}} for k in range(4)]
     jobs.append({'id': 'hex', 'harness': 'vh_el_hex', 'summaries': FIELD_SUMM, 'concretize': {'slice': [1, 33, 65]}})
     runs = ck.absorb(core.symx_parallel(HARNESS, jobs))
-    ck.extra['_runs'] = runs
+    ck.extra.setdefault('_runs', []).extend(runs)
     R_ = {r.id: r for r in runs}
-    ck.trusted = ['go/ssa + symx translation (crypto/subtle executed from its real SSA)', 'SMT solvers',
+    ck.trusted += ['go/ssa + symx translation (crypto/subtle executed from its real SSA)', 'SMT solvers',
                   'contracts of field.Element methods (C12): Bytes = 32-byte big-endian canonical value < p, Sgn0 = parity, IsZero, Invert = x^(p-2)',
                   'affine coordinates X/Z, Y/Z do not depend on the projective scaling (field fact), so the bytes depend only on the group element',
                   'round trip: composition of this specification with C03\'s decoder specification (the two square roots of x^3+7 have opposite parity, no point has y = 0)']
-    ck.assumptions = ['coordinates arbitrary field values; the element is a valid representation (C10) for the round-trip conclusion']
-    ck.bounds = {'operands': 'all coordinate triples', 'result length': 'solver-split over {1,33,65}, remainder shown infeasible'}
+    ck.assumptions += ['coordinates arbitrary field values; the element is a valid representation (C10) for the round-trip conclusion']
+    ck.bounds.update({'operands': 'all coordinate triples', 'result length': 'solver-split over {1,33,65}, remainder shown infeasible'})
     from props import C12
     C12.run(tier, seed, ck)   # contracts of the field.Element methods used as summaries are re-proved on the current tree
 
@@ -107,7 +108,7 @@ def run(tier, seed):
         p['obs']['hex']['elems'] == p['obs']['enc']['elems'] and p['obs']['hex']['label'] == 'hexenc' for p in rets))
     if any(not o['ok'] for o in ck.obls) and not ck.violations:
         battery('encode:structure', 'a structural obligation failed')
-    return ck.finish()
+    return ck.finish() if own else None
 
 
 def replay(path):
